@@ -3,9 +3,10 @@
 #include <cstdlib>
 #include <cstring>
 static unsigned long vals[1024]; static int nv, pos, failures;
-extern "C" unsigned __VERIFIER_nondet_uint(void) { if (pos >= nv) { std::printf("REPLAY: nondet vector exhausted\n"); std::fflush(stdout); std::_Exit(3); } return (unsigned)vals[pos++]; }
+static int exhausted;
+extern "C" unsigned __VERIFIER_nondet_uint(void) { if (pos >= nv) { if (!exhausted) std::printf("NOTE: nondet vector exhausted (values past the end are 0)\n"); exhausted = 1; return 0; } return (unsigned)vals[pos++]; }
 extern "C" unsigned __VERIFIER_nondet_uint_unlogged(void) { return 0; }
-extern "C" void __VERIFIER_assume(int c) { if (!c) { std::printf("REPLAY: assumption violated\n"); std::fflush(stdout); std::_Exit(3); } }
+extern "C" void __VERIFIER_assume(int c) { if (!c) { std::printf(exhausted ? "NOTE: stopped at an assumption after the vector was exhausted\n" : "REPLAY: assumption violated\n"); std::fflush(stdout); std::_Exit(exhausted ? (failures ? 1 : 0) : 3); } }
 extern "C" void __VERIFIER_assert(int c, const char *m) {
     if (std::strncmp(m, "UB: ", 4) == 0) { if (!c) { std::printf("ASSERT FAIL: %s\n", m); ++failures; } return; }
     std::printf("ASSERT %s: %s\n", c ? "ok" : "FAIL", m); if (!c) ++failures; std::fflush(stdout); }
